@@ -212,7 +212,7 @@ var vc12Bounds = []string{
 var vc12ListVals = []string{`b`, `7`, `-3`, `1.5`, `5.0`, `"x y"`, `""`, `"a*"`, `"/r/"`, `w*`, `héé`, `"日本 語"`, `\/p\/`, `9007199254740993`, `a\:b`}
 var vc12ListVals3 = []string{`b`, `7`, `1.5`, `"x y"`, `""`, `héé`}
 
-var vc12Unary = []string{`NOT %s`, `+%s`, `-%s`, `%s~`, `%s~0`, `%s~2`, `%s^`, `%s^1.5`, `%s^2`, `(%s)`, `a:(%s)`}
+var vc12Unary = []string{`NOT %s`, `+%s`, `-%s`, `%s~`, `%s~0`, `%s~2`, `%s^`, `%s^1.5`, `%s^2`, `%s^Inf`, `(%s)`, `a:(%s)`}
 var vc12Binary = []string{`%s AND %s`, `%s OR %s`, `%s %s`}
 
 func vc12Un(form string, t vc12Term) vc12Term {
